@@ -324,18 +324,48 @@ func (m *Map) Clear() {
 	m.m = map[any]*entry{}
 }
 
-// Pool keeps nothing (always allocates): deterministic and race-free.
+// Pool really pools (LIFO) within one execution, so that code which hands an
+// object back while somebody else can still reach it is exposed; the contents
+// do not survive into the next execution.
 type Pool struct {
-	New func() any
+	New   func() any
+	epoch uint64
+	items []any
+	h     uint64
+}
+
+func (p *Pool) fresh() {
+	if e := vm.Epoch(); p.epoch != e {
+		p.epoch, p.items, p.h = e, nil, 0
+	}
 }
 
 func (p *Pool) Get() any {
+	p.fresh()
+	vm.PointKind("Pool.Get")
+	p.fresh()
+	vm.Touch(&p.h, 0x3e)
+	if n := len(p.items); n > 0 {
+		x := p.items[n-1]
+		p.items = p.items[:n-1]
+		return x
+	}
 	if p.New != nil {
 		return p.New()
 	}
 	return nil
 }
-func (p *Pool) Put(any) {}
+
+func (p *Pool) Put(x any) {
+	if x == nil {
+		return
+	}
+	p.fresh()
+	vm.PointKind("Pool.Put")
+	p.fresh()
+	vm.Touch(&p.h, 0x3f)
+	p.items = append(p.items, x)
+}
 
 // Cond
 type Cond struct {
